@@ -3,6 +3,7 @@ package main
 // Reference-based properties: the oracle inspects the implementation through the exported API.
 
 import (
+	"strconv"
 	"bytes"
 	"fmt"
 	"math/big"
@@ -120,6 +121,54 @@ func checkNested(buf []byte, start, o int, m *sipsp.PSIPMsg) string {
 			return fmt.Sprintf("hdr #%d (%q) value [%d,+%d) runs into the next header at %d (not inside its own line)", i, fget(buf, h.Name), h.Val.Offs, h.Val.Len, m.HL.Hdrs[i+1].Name.Offs)
 		}
 	}
+	// a header value lies inside its own logical line: every line end inside it is followed by SP / HT (a fold)
+	ownLine := func(what string, h *sipsp.Hdr) string {
+		if h.Val.Len == 0 {
+			return ""
+		}
+		if fend(h.Val) > len(buf) {
+			return what + ": value outside the buffer"
+		}
+		v := buf[h.Val.Offs:fend(h.Val)]
+		for k := 0; k < len(v); k++ {
+			if v[k] == '\r' || v[k] == '\n' {
+				j := k + 1
+				if v[k] == '\r' && j < len(v) && v[j] == '\n' {
+					j++
+				}
+				if j < len(v) && v[j] != ' ' && v[j] != '\t' {
+					return fmt.Sprintf("%s (%q): value %q runs over a line end into another line", what, fget(buf, h.Name), v)
+				}
+				k = j - 1
+			}
+		}
+		return ""
+	}
+	for i := 0; i < n; i++ {
+		if e := ownLine(fmt.Sprintf("hdr #%d", i), &m.HL.Hdrs[i]); e != "" {
+			return e
+		}
+	}
+	// the first-of-type shortcuts report fields too
+	for t := sipsp.HdrT(1); t <= 13; t++ {
+		h := m.HL.GetHdr(t)
+		if h == nil || h.Missing() {
+			continue
+		}
+		what := fmt.Sprintf("first header of type %d", t)
+		if e := in(what+" name", h.Name); e != "" {
+			return e
+		}
+		if e := in(what+" value", h.Val); e != "" {
+			return e
+		}
+		if h.Val.Len > 0 && int(h.Val.Offs) < fend(h.Name)+1 {
+			return fmt.Sprintf("%s (%q): value [%d,+%d) not after its own name and colon", what, fget(buf, h.Name), h.Val.Offs, h.Val.Len)
+		}
+		if e := ownLine(what, h); e != "" {
+			return e
+		}
+	}
 	if int(m.Body.Offs) < prevEnd {
 		return fmt.Sprintf("body starts at %d, before the end of the headers (%d)", m.Body.Offs, prevEnd)
 	}
@@ -202,7 +251,35 @@ func checkNested(buf []byte, start, o int, m *sipsp.PSIPMsg) string {
 }
 
 func (g *Gen) genC05() {
-	g.exhOneShot("C05", "msg")
+	// the bounded-exhaustive message texts under the containment oracle (one call)
+	for _, s := range exhSpecs(g.budget(0, 1), "msg") {
+		f := strings.Fields(s.hd)
+		if f[0] != "msg" {
+			continue
+		}
+		capOf := func(x string) int {
+			if x == "-" {
+				return -1
+			}
+			v, _ := strconv.Atoi(x)
+			return v
+		}
+		hcap, ccap := capOf(f[1]), capOf(f[2])
+		hd := s.hd
+		s.each(func(text string) {
+			bb := []byte(text)
+			g.add(Case{Prop: "C05", Desc: "exh-msg-nested", Lines: []string{parseSess(hd, text, 0, []int{len(text)}, 0, true, "")}, Check: func(out []string) string {
+				return protect(func() string {
+					m := newMsg(hcap, ccap)
+					o, err := sipsp.ParseSIPMsg(bb, 0, m, 0)
+					if err != 0 {
+						return ""
+					}
+					return checkNested(bb, 0, o, m)
+				})
+			}})
+		})
+	}
 	r := g.r
 	n := g.budget(2500, 80000)
 	for i := 0; i < n; i++ {
@@ -1067,7 +1144,7 @@ func (g *Gen) genC10() {
 		}
 		// URI port
 		// (the last four: text first taken as host:port[;params|?headers] that a later '@' turns into the user part)
-		for _, form := range []string{"sip:h:%s", "sip:u@h:%s", "sip:u:p@h:%s;x=y", "sip:h:%s?a=b", "sips:[::1]:%s",
+		for _, form := range []string{"sip:u:12@h:%s", "sip:u:0065@h:%s;t=u", "sips:b:7@[::1]:%s?h=v", "sip:1:2@3:%s", "sip:12@h:%s", "sip:9:0@[::1]:%s;x", "sip:h:%s", "sip:u@h:%s", "sip:u:p@h:%s;x=y", "sip:h:%s?a=b", "sips:[::1]:%s",
 			"sip:[::1]:5;x@h:%s", "sip:[::2]:77?q@h:%s;y", "sips:[a]:9;x=1;y@[::1]:%s", "sip:[::1]:65535;lr@h:%s?z=1"} {
 			u := fmt.Sprintf(form, d)
 			g.add(Case{Prop: "C10", Desc: "uri-port", Lines: []string{fmt.Sprintf("uri | B %s | P %d 0 0 | O", hx(u), len(u))}, Check: func(out []string) string {
